@@ -285,6 +285,154 @@ func runGCCase(c *engine.Ctx, gc gcCase) {
 	}
 }
 
+// gcLife is a random history on the library's own store-once back end (whose
+// LoadByNodeId the node-ID path runs on in the library's tests): records are
+// added under node IDs and removed, and between these steps requests are made
+// by node ID or by key ID, signed by any key that ever had a record or by an
+// unregistered one. Certificates may be minted only for a signer whose record
+// is in storage at that moment (and carries the named node ID).
+type gcLife struct {
+	Seed  int64 `json:"seed"`
+	Wrap  bool  `json:"storage_wrapper"`
+	Steps int   `json:"steps"`
+}
+
+func runGCLife(c *engine.Ctx, lc gcLife) {
+	r := c.R
+	rng := rand.New(rand.NewSource(lc.Seed))
+	s := world.MustServer(world.ServerCfg{Backend: world.StoreOnce, StorageWrap: lc.Wrap})
+	defer s.Close()
+	type ent struct {
+		n       *world.Node
+		nodeID  string
+		present bool
+	}
+	var ents []*ent
+	ids := []string{"N", "M", "P"}
+	var trace []string
+	wit := func() any { return map[string]any{"history": lc, "trace": trace} }
+	add := func() {
+		er, err := world.Enroll(s, world.FlowAuthorize, false, nil, nil, nil)
+		if err != nil {
+			r.Broken("gencerts lifecycle enroll: " + err.Error())
+			return
+		}
+		id := ids[rng.Intn(len(ids))]
+		ni, err := types.LoadNodeInformation(s.Ctx, s.Inner, er.Node.K.KeyID, s.StoreOpts()...)
+		if err != nil {
+			r.Broken("gencerts lifecycle load: " + err.Error())
+			return
+		}
+		_ = s.RemoveNode(er.Node.K.KeyID)
+		ni.NodeId = id
+		if err := ni.Store(s.Ctx, s.Store, s.StoreOpts()...); err != nil {
+			r.Broken("gencerts lifecycle store: " + err.Error())
+			return
+		}
+		ents = append(ents, &ent{n: er.Node, nodeID: id, present: true})
+		trace = append(trace, fmt.Sprintf("add #%d under %s", len(ents)-1, id))
+	}
+	add()
+	add()
+	unreg := world.NewKeys()
+	for step := 0; step < lc.Steps; step++ {
+		switch k := rng.Intn(10); {
+		case k < 2:
+			add()
+		case k < 4:
+			var present []int
+			for i, e := range ents {
+				if e.present {
+					present = append(present, i)
+				}
+			}
+			if len(present) == 0 {
+				continue
+			}
+			i := present[rng.Intn(len(present))]
+			if err := s.RemoveNode(ents[i].n.K.KeyID); err != nil {
+				r.Broken("gencerts lifecycle remove: " + err.Error())
+				return
+			}
+			ents[i].present = false
+			trace = append(trace, fmt.Sprintf("remove #%d", i))
+			r.Count("lifecycle_removals", 1)
+		default:
+			// a request
+			signer := rng.Intn(len(ents) + 1)
+			keys := unreg
+			var e *ent
+			if signer < len(ents) {
+				e = ents[signer]
+				keys = e.n.K
+			}
+			nodeID := ""
+			switch rng.Intn(4) {
+			case 0: // key-ID path
+			case 1:
+				nodeID = ids[rng.Intn(len(ids))]
+			default:
+				if e != nil {
+					nodeID = e.nodeID
+				} else {
+					nodeID = ids[rng.Intn(len(ids))]
+				}
+			}
+			nonce := world.RandBytes(nodeenrollment.NonceSize)
+			req := &types.GenerateServerCertificatesRequest{CertificatePublicKeyPkix: keys.Pkix, Nonce: nonce, NonceSignature: ed25519.Sign(keys.Priv, nonce), NodeId: nodeID}
+			var stateMsg *structpb.Struct
+			if rng.Intn(2) == 0 {
+				stateMsg, _ = structpb.NewStruct(map[string]any{"step": float64(step)})
+				req.ClientState, _ = proto.Marshal(stateMsg)
+				req.ClientStateSignature = ed25519.Sign(keys.Priv, req.ClientState)
+			}
+			ok := e != nil && e.present && (nodeID == "" || nodeID == e.nodeID)
+			var resp *types.GenerateServerCertificatesResponse
+			var gerr error
+			if p, st := engine.Guard(func() { resp, gerr = nodetls.GenerateServerCertificates(s.Ctx, s.Store, req, s.Opts()...) }); p != nil {
+				r.Violation("panic:"+engine.LibraryFrame(st), fmt.Sprintf("GenerateServerCertificates panicked: %v", p), wit())
+				return
+			}
+			what := "unregistered key"
+			if e != nil {
+				what = fmt.Sprintf("#%d (under %s, present=%v)", signer, e.nodeID, e.present)
+			}
+			trace = append(trace, fmt.Sprintf("request node_id=%q signed by %s -> err=%v", nodeID, what, gerr != nil))
+			r.Count("lifecycle_requests", 1)
+			switch {
+			case !ok && gerr == nil:
+				cls := "never-registered"
+				switch {
+				case e != nil && !e.present:
+					cls = "record-removed"
+				case e != nil:
+					cls = "record-under-another-node-id"
+				}
+				path := "nodeid"
+				if nodeID == "" {
+					path = "keyid"
+				}
+				r.Violation("minted-without-record-in-storage:"+cls+",path="+path, fmt.Sprintf("certificates minted for node_id=%q although the signer (%s) has no record in storage under it at that moment", nodeID, what), wit())
+			case !ok:
+				r.Count("lifecycle_refusals", 1)
+				if e != nil && !e.present {
+					r.Count("lifecycle_refusals_after_removal", 1)
+				}
+			case gerr != nil:
+				r.Violation("valid-signature-refused:lifecycle", fmt.Sprintf("request node_id=%q signed by %s refused: %v", nodeID, what, gerr), wit())
+			default:
+				r.Count("lifecycle_successes", 1)
+				if resp == nil || len(resp.CertificateBundles) != 2 {
+					r.Violation("success-without-certificates", "success without two certificate bundles", wit())
+				} else if (stateMsg == nil) != (resp.ClientState == nil) || (stateMsg != nil && !proto.Equal(stateMsg, resp.ClientState)) {
+					r.Violation("client-state-altered", "client state in the response differs from the verified state", wit())
+				}
+			}
+		}
+	}
+	r.Eval(engine.J(lc), true)
+}
+
 func runGenCerts(c *engine.Ctx) engine.Result {
 	r := c.R
 	res := engine.Result{
@@ -401,6 +549,14 @@ func runGenCerts(c *engine.Ctx) engine.Result {
 	r.Sample(cases[enumerated/2])
 	r.Sample(cases[len(cases)-1])
 	engine.ForEach(len(cases), engine.Workers(), func(i int) { runGCCase(c, cases[i]) })
+	var lives []gcLife
+	for i := 0; i < c.Pick(40, 1500); i++ {
+		lives = append(lives, gcLife{Seed: rng.Int63(), Wrap: i%3 == 0, Steps: 30 + rng.Intn(40)})
+	}
+	r.Set("store_once_lifecycle_histories", len(lives))
+	engine.ForEach(len(lives), engine.Workers(), func(i int) { runGCLife(c, lives[i]) })
+	r.Require("lifecycle_successes", 100)
+	r.Require("lifecycle_refusals_after_removal", 20)
 	r.Require("expect_success", 20)
 	r.Require("expect_error", 20)
 	r.Require("verifying_record_position_first", 5)
